@@ -399,7 +399,7 @@ def _run(chk, exe, judge, wit, work):
                 mt = [t for k_, t in enumerate(tk) if not (kind == "D" and k_ == pos)]
                 if kind == "R" and 0 <= pos < len(mt):
                     mt[pos] = "@@"
-                size0 = any(a == "size" and b == "0" for a, b in zip(mt, mt[1:]))
+                size0 = kind == "D" and pos >= 1 and tk[pos - 1] == "size"
                 chk.failure({"site": (p[2] if not size0 else "Linear_Expression_Impl") + "::ascii_load",
                              "kind": "malformed-size-0-row" if size0 else "crash-on-malformed-stream"},
                             {"harness_seed": hseed, "index": int(p[1]), "maxmut": maxmut, "class": p[2], "exit_status": p[3],
@@ -451,6 +451,12 @@ def _run(chk, exe, judge, wit, work):
                         and r["answers"] == "1" and r["battery"] == "1")
             if not fresh_ok:
                 info = None
+                if r.get("bcrash") == "1" and bmark.get(idx) == "BX":
+                    # the ORIGINAL object crashed the library in its own battery, before the loaded one was touched:
+                    # not a statement about dump / load (solver defects belong to C06 / C07); not judged
+                    stats["original_crashed_in_battery"] += 1
+                    chk.undecided += 1
+                    continue
                 if r.get("bcrash") == "1":
                     replay["battery_marker"] = bmark.get(idx)
                     if cls == "PIP_Problem" and bmark.get(idx) == "BY" and "DECISION" in t1 and r["load"] == "1" and r["same"] == "1":
@@ -458,7 +464,8 @@ def _run(chk, exe, judge, wit, work):
                         info = {"site": "PIP_Decision_Node::ascii_load", "kind": "loaded-decision-tree-crashes-on-resolve"}
                     else:
                         info = {"site": cls + "::ascii_load", "kind": "battery-crash", "marker": bmark.get(idx)}
-                elif cls in FLOAT_SHAPES and r["load"] == "0" and any(MISPRINT.match(t) for t in t1):
+                elif cls in FLOAT_SHAPES and any(MISPRINT.match(t) for t in t1):
+                    # the misprinted entry either makes the load fail or is read as two entries ("0" and "-625")
                     info = {"site": "Checked::float_mpq_to_string", "kind": "negative-float-below-0.1-misprinted"}
                 elif cls in BOXES and r["load"] == "1" and r["eq"] == "1" and r["answers"] == "1":
                     fl = only_stale_set(t1, t2, ("EUP", "EM"))
@@ -536,8 +543,9 @@ def _run(chk, exe, judge, wit, work):
                 cls = R.get(k[0], {}).get("cls", "?")
                 tk = objs.get(k[0], {}).get("d1", "").split()
                 mt = [t for k_, t in enumerate(tk) if not (k[2] == "D" and k_ == k[1])]
-                if any(x == "size" and y == "0" for x, y in zip(mt, mt[1:])) and a == "0":
-                    # the model rejects a row of size 0 (space_dimension() wraps around); the real loader goes on with
+                if k[2] == "D" and k[1] >= 1 and tk[k[1] - 1] == "size" and a == "0":
+                    # the size field of a row was deleted, so its first coefficient is taken as the size and the row ends up with fewer
+                    # coefficients than its class needs (space_dimension() wraps around): the model rejects; the real loader goes on with
                     # it and either crashes or returns true with a corrupt system: same root cause as the crash finding
                     stats["mutants_size0_row"] += 1
                     chk.failure({"site": "Linear_Expression_Impl::ascii_load", "kind": "malformed-size-0-row"},
